@@ -278,7 +278,7 @@ class DocGen:
                     + ([self.ref(r.choice(self.refs_of_kind(("model",))))] if self.refs_of_kind(("model",)) else [])
                 )
             elif a < 0.6:
-                s["additionalProperties"] = True
+                s["additionalProperties"] = r.choice([True, True, {}])  # ({}: the empty schema, spelled out)
         return self.desc(s)
 
     def _inline_allof_parents(self) -> list[str]:
@@ -438,6 +438,14 @@ class DocGen:
                         if plain and r.random() < 0.35:
                             k2 = r.choice(plain)
                             extra["properties"][k2] = copy.deepcopy(inherited[k2][0])
+                        # ... or NARROWS an inherited inline enum to a strict subset of its values
+                        enums = [k2 for k2, (ps, rq) in inherited.items() if isinstance(ps, dict) and "$ref" not in ps and isinstance(ps.get("enum"), list)
+                                 and len([v for v in ps["enum"] if v is not None]) >= 2 and None not in ps["enum"] and "default" not in ps]
+                        if enums and r.random() < 0.35:
+                            k2 = r.choice(enums)
+                            ps = copy.deepcopy(inherited[k2][0])
+                            ps["enum"] = ps["enum"][:-1]
+                            extra["properties"] = {k2: ps, **extra["properties"]}
                     if not extra.get("required"):
                         extra.pop("required", None)
                     s = {"allOf": [self.ref(parent), extra]}
